@@ -50,7 +50,10 @@ class LmtpRelayClient(SmtpRelayClient):
         rcpt_results = dict.fromkeys(envelope.recipients)
         try:
             envelope = self._handle_encoding(envelope)
-            self._send_envelope(rcpt_results, envelope)
+            if not self._send_envelope(rcpt_results, envelope):
+                result.set(rcpt_results)
+                self._rset()
+                return
             data_results = self._send_message_data(envelope)
         except SmtpRelayError as e:
             result.set_exception(e)
